@@ -17,49 +17,54 @@ import (
 // end (after Denitr, before the annual counter reset).
 
 type nSnap struct {
-	C1                                                                    []float64 // layers 0..N-1
-	SumC1                                                                 float64
-	C1below                                                               float64 // C1[N] (outside the profile)
-	Naos, Nfos                                                            [21]float64
-	Minaos, Minfos                                                        [4]float64
-	Outsum, Drainloss, Aufnasum, Cumdenit, N2onitsum, Ums, Dsumm          float64
-	Nh4sum, Nh4ums, Pesum, Nfixsum, N2odencum                             float64
-	NDG, NTIL, AKF, MZ, NBR                                               int
+	C1                                                           []float64 // layers 0..N-1
+	SumC1                                                        float64
+	C1below                                                      float64 // C1[N] (outside the profile)
+	Naos, Nfos                                                   [21]float64
+	Minaos, Minfos                                               [4]float64
+	Outsum, Drainloss, Aufnasum, Cumdenit, N2onitsum, Ums, Dsumm float64
+	Nh4sum, Nh4ums, Pesum, Nfixsum, N2odencum                    float64
+	NDG, NTIL, AKF, MZ, NBR                                      int
 }
 
 type nSub struct {
-	Subd              int
-	Wdt, Steps        float64
-	Pesum, Aufnasum   float64
-	SumPE             float64
-	Schnorr           float64
-	Qdrain, Q1Drain   float64
-	Drainloss         float64
-	ClampEvidence     bool
-	Unstable          bool
-	SumC1             float64
-	NegC1             bool
+	Subd            int
+	Wdt, Steps      float64
+	Pesum, Aufnasum float64
+	SumPE           float64
+	MaxAbsPE        float64 // largest |PE[i]| handed to the transport routine in this sub-step
+	Schnorr         float64
+	Qdrain, Q1Drain float64
+	Drainloss       float64
+	ClampEvidence   bool
+	Unstable        bool
+	SumC1           float64
+	NegC1           bool
 }
 
 type nDay struct {
-	Zeit       int
-	Date       string
-	Start, End nSnap
-	Subs       []nSub
-	CropDay    bool // PhytoOut runs on this day
-	Legume     bool
-	Depo, IrrN float64
-	Nfix       float64
-	HaveEnd    bool
-	UnstableSoFar bool // the run has raised the instability flag on this or an earlier day
+	Zeit                 int
+	Date                 string
+	Start, End           nSnap
+	Subs                 []nSub
+	CropDay              bool    // PhytoOut runs on this day (a crop stands on the field)
+	SowDay               bool    // the crop is sown today: PESUM is set from the seedling biomass (crop.go:119-123)
+	HarvestDay           bool    // the current rotation entry is harvested today (nitro.go harvest block moves and resets PESUM)
+	WumasStart, WumasEnd float64 // root dry mass before / after the day (dead roots feed the organic pools)
+	Crop                 string
+	Legume               bool
+	Depo, IrrN           float64
+	Nfix                 float64
+	HaveEnd              bool
+	UnstableSoFar        bool // the run has raised the instability flag on this or an earlier day
 }
 
 type nRun struct {
-	P     *proj.Project
-	N     int
-	Days  []*nDay
-	Res   *proj.RunResult
-	Steps map[int]int
+	P            *proj.Project
+	N            int
+	Days         []*nDay
+	Res          *proj.RunResult
+	Steps        map[int]int
 	unstableSeen bool
 }
 
@@ -97,6 +102,10 @@ func runNitroObserved(c *vh.Ctx, p *proj.Project) *nRun {
 					cur.IrrN = x
 				}
 			}
+			cur.SowDay = zeit == g.SAAT[g.AKF.Index]
+			cur.HarvestDay = zeit == g.ERNTE[g.AKF.Index]
+			cur.WumasStart = g.WUMAS
+			cur.Crop = g.CropTypeToString(g.FRUCHT[g.AKF.Index], false)
 			cur.CropDay = g.AKF.Num > 1 && g.SAAT[g.AKF.Index] > 0 && zeit >= g.SAAT[g.AKF.Index] && zeit <= g.ERNTE2[g.AKF.Index]
 			r.N = g.N
 			r.Days = append(r.Days, cur)
@@ -112,6 +121,9 @@ func runNitroObserved(c *vh.Ctx, p *proj.Project) *nRun {
 			}
 			for z := 0; z < g.N; z++ {
 				s.SumPE += g.PE[z]
+				if a := math.Abs(g.PE[z]); a > s.MaxAbsPE || math.IsNaN(a) {
+					s.MaxAbsPE = a
+				}
 				s.SumC1 += g.C1[z]
 				if g.C1[z] == 0 || g.C1[z] == g.DN[z]*wdt/2 {
 					s.ClampEvidence = true
@@ -135,6 +147,7 @@ func runNitroObserved(c *vh.Ctx, p *proj.Project) *nRun {
 				return
 			}
 			cur.End = snapN(g)
+			cur.WumasEnd = g.WUMAS
 			cur.HaveEnd = true
 			r.Steps[len(cur.Subs)]++
 		},
